@@ -55,10 +55,12 @@ func verifDecodeDeb(out []byte) (debView, bool) {
 	return d, true
 }
 
-func Verif_C01_C_DebModes()   { verifDebPayload(scen.Options{SymModes: true, Second: -1}) }
-func Verif_C01_C_DebOwners()  { verifDebPayload(scen.Options{SymOwners: true, Second: 1}) }
-func Verif_C01_C_DebTimes()   { verifDebPayload(scen.Options{SymTimes: true, Second: 3}) }
-func Verif_C01_C_DebContent() { verifDebPayload(scen.Options{SymContent: true, SymDst: true, SymType: true, Second: -1}) }
+func Verif_C01_C_DebModes()  { verifDebPayload(scen.Options{SymModes: true, Second: -1}) }
+func Verif_C01_C_DebOwners() { verifDebPayload(scen.Options{SymOwners: true, Second: 1}) }
+func Verif_C01_C_DebTimes()  { verifDebPayload(scen.Options{SymTimes: true, Second: 3}) }
+func Verif_C01_C_DebContent() {
+	verifDebPayload(scen.Options{SymContent: true, SymDst: true, SymType: true, Second: -1})
+}
 
 func verifDebPayload(o scen.Options) {
 	sc := scen.Payload(o)
